@@ -57,6 +57,8 @@ pub struct Game {
     pub own: BTreeMap<i32, St>,
     /// save without a checksum
     pub no_checksum: bool,
+    /// checksum = one bit of the state
+    pub weak_checksum: bool,
 }
 
 pub fn checksum_of(hash: u64) -> u128 {
@@ -86,6 +88,7 @@ impl Game {
             own_snapshots: false,
             own: BTreeMap::new(),
             no_checksum: false,
+            weak_checksum: false,
         }
     }
 
@@ -131,7 +134,7 @@ impl Game {
                             format!("SaveGameState names frame {} but the game is at frame {}", frame, self.st.frame),
                         );
                     }
-                    let cs = checksum_of(self.st.hash);
+                    let cs = if self.weak_checksum { (self.st.hash & 1) as u128 } else { checksum_of(self.st.hash) };
                     self.last_saved.insert(frame, (self.st.hash, cs));
                     let v = self.saved_checksums.entry(frame).or_default();
                     if v.last() != Some(&cs) {
